@@ -867,6 +867,18 @@ func (in *instr) walk(n ast.Node, fn string) {
 	}
 	ast.Inspect(n, func(x ast.Node) bool {
 		switch t := x.(type) {
+		case *ast.CallExpr:
+			// sync.OnceValue(f), sync.OnceValues(f), sync.OnceFunc(f): whatever f
+			// builds lives as long as the returned function value, which cannot be
+			// walked. f announces itself when it runs (simrt.LazyInit); if that
+			// happens after package initialisation, state has been created lazily.
+			if sel, ok := t.Fun.(*ast.SelectorExpr); ok && len(t.Args) == 1 {
+				if id, ok := sel.X.(*ast.Ident); ok && id.Name == "sync" && (sel.Sel.Name == "OnceValue" || sel.Sel.Name == "OnceValues" || sel.Sel.Name == "OnceFunc") {
+					if fl, ok := t.Args[0].(*ast.FuncLit); ok {
+						in.insert(fl.Body.Lbrace+1, fmt.Sprintf("simrt.LazyInit(%q); ", in.p.imp+"."+fn+" (sync."+sel.Sel.Name+")"))
+					}
+				}
+			}
 		case *ast.FuncLit:
 			lfn := fn + ".func"
 			in.yieldAt(t.Body.Lbrace+1, "entry", lfn)
@@ -1043,6 +1055,20 @@ func Captured(name string, ptr any) {
 
 var sealed bool
 
+var lazies []string
+
+// LazyInit is called at the start of a function passed to sync.OnceValue,
+// sync.OnceValues or sync.OnceFunc. Running after package initialisation means
+// that process-lifetime state is being created on first use.
+func LazyInit(name string) {
+	if sealed {
+		lazies = append(lazies, name)
+	}
+}
+
+// Lazies lists the lazy initialisers that have run since Globals was taken.
+func Lazies() []string { return lazies }
+
 // Globals returns every registered package-level variable.
 func Globals() []Global { sealed = true; return globals }
 `
@@ -1052,6 +1078,9 @@ type VerifGlobal = simrt.Global
 
 // VerifGlobals lists every package-level variable of every package of the module.
 func VerifGlobals() []VerifGlobal { return simrt.Globals() }
+
+// VerifLazy lists the sync.OnceValue / OnceFunc initialisers that ran after start-up.
+func VerifLazy() []string { return simrt.Lazies() }
 
 // VerifSetYieldHook installs the scheduler callback (nil uninstalls).
 func VerifSetYieldHook(f func(uint32)) { simrt.Hook = f }
